@@ -148,6 +148,11 @@ def programs():
     add("iter.clone", "mutate-source", "let mut v = mk();\nlet it = v.iter();\nlet it2 = it.clone();\ndrop(it);\nv.clear();\ntouch(&it2);", "let mut v = mk();\nlet it = v.iter();\nlet it2 = it.clone();\ndrop(it);\ntouch(&it2);\nv.clear();")
     add("iter_mut.item", "read-source", "let mut v = mk();\nlet mut it = v.iter_mut();\nlet mut a = it.next().unwrap();\ndrop(it);\nlet n = v.len();\ntouch_mut(&mut a);", "let mut v = mk();\nlet mut it = v.iter_mut();\nlet mut a = it.next().unwrap();\ndrop(it);\ntouch_mut(&mut a);\nlet n = v.len();")
     add("drain.item", "mutate-source", "let mut v = mk();\nlet mut d = v.drain(..);\nlet e = d.next().unwrap();\ndrop(d);\nv.clear();\ntouch(&e);", "let mut v = mk();\nlet mut d = v.drain(..);\nlet e = d.next().unwrap();\ntouch(&e);\ndrop(e);\ndrop(d);\nv.clear();")
+    # an item yielded by a draining / splicing iterator is a handle into the vector's storage that the iterator's Drop moves
+    # elements over: keeping it beyond ITS source (the iterator) must not compile (std's drain yields owned values instead)
+    add("drain.item", "outlive-iterator", "let mut v = mk();\nlet e = { let mut d = v.drain(0..1); d.next().unwrap() };\ntouch(&e);", "let mut v = mk();\n{ let mut d = v.drain(0..1); let e = d.next().unwrap(); touch(&e); }")
+    add("splice.item", "outlive-iterator", "let mut v = mk();\nlet e = { let mut d = v.splice(0..1, [AnyValueWrapper::new(String::new())]); d.next().unwrap() };\ntouch(&e);", "let mut v = mk();\n{ let mut d = v.splice(0..1, [AnyValueWrapper::new(String::new())]); let e = d.next().unwrap(); touch(&e); }")
+    add("drain.item", "outlive-iterator(collect)", "let mut v = mk();\nlet items: Vec<_> = v.drain(..).collect();\ntouch(&items);", "let mut v = mk();\nlet mut d = v.drain(..);\nlet n = d.by_ref().count();\ntouch(&n);\ndrop(d);")
     add("ElementRef.clone", "mutate-source", "let mut v = mk();\nlet e = v.at(0);\nlet e2 = e.clone();\ndrop(e);\nv.clear();\ntouch(&e2);", "let mut v = mk();\nlet e = v.at(0);\nlet e2 = e.clone();\ndrop(e);\ntouch(&e2);\nv.clear();")
     add("at_mut+at", "shared-while-mutable", "let mut v = mk();\nlet mut m = v.at_mut(0);\nlet s = v.at(1);\ntouch_mut(&mut m);\ntouch(&s);", "let mut v = mk();\nlet mut m = v.at_mut(0);\ntouch_mut(&mut m);\ndrop(m);\nlet s = v.at(1);\ntouch(&s);")
     add("pop+pop", "second-exclusive", "let mut v = mk();\nlet a = v.pop().unwrap();\nlet b = v.pop().unwrap();\ntouch(&a);\ntouch(&b);", "let mut v = mk();\nlet a = v.pop().unwrap();\ntouch(&a);\ndrop(a);\nlet b = v.pop().unwrap();\ntouch(&b);")
